@@ -2,7 +2,12 @@
 #ifndef VERIF_CELER_TYPES_H
 #define VERIF_CELER_TYPES_H
 typedef unsigned long size_type;         /* celeritas::size_type == std::size_t on the host (non-device) build */
-#ifdef VERIF_REAL_AS_INT
+#if defined(VERIF_REAL_BITS)
+/* exact small-integer abstraction of real_type: N-bit signed values (arithmetic is carried out in int after the usual promotions) */
+typedef signed __CPROVER_bitvector[VERIF_REAL_BITS] real_type;
+#define __CPROVER_isinfd(x) 0
+#define __CPROVER_isnand(x) 0
+#elif defined(VERIF_REAL_AS_INT)
 /* exact-integer abstraction of real_type (labelled in the unit): sums are exact and associative, no rounding */
 typedef long real_type;
 #define __CPROVER_isinfd(x) 0
